@@ -81,6 +81,9 @@ Proof.
   repeat (apply incl_cons; [find_in|]). unfold v0l_need in HD. rewrite HP in HD. exact HD.
 Qed.
 
+(* concrete inclusion by computation (the right-hand side may end in an abstract tail) *)
+Ltac reflect_incl := apply forallb_mem_incl; vm_compute; reflexivity.
+
 Lemma v0l_body_need sh : incl (s_loads (v0l_body sh)) (v0l_need sh).
 Proof.
   unfold v0l_body. rewrite sseq_loads, !flat_map_app. split_app.
@@ -93,9 +96,10 @@ Proof.
       apply v0l_path_stmt_need. now rewrite EP.
     + unfold v0l_need, has_paths. rewrite EP. cbn -[S In incl]. incl_walk.
     + apply incl_nil_l.
-  - unfold v0l_need. destruct (l_loop sh); [|cbn; apply incl_nil_l].
-    unfold v0l_loop. destruct (l_raise_unknown sh), (l_tag_key sh), (l_catch_all sh) as [[n b]|];
-      time "cbn" (cbn -[S In incl has_paths v0l_defaults]); time "walk" incl_walk.
+  - unfold v0l_need, has_paths. destruct (l_loop sh); [|cbn; apply incl_nil_l].
+    unfold v0l_loop.
+    destruct (l_raise_unknown sh), (l_tag_key sh), (l_catch_all sh) as [[n b]|], (l_pre sh), (l_paths sh);
+      time "loop" reflect_incl.
   - unfold v0l_need. destruct (l_catch_all sh) as [[n [|]]|]; cbn -[S In incl]; incl_walk.
   - unfold v0l_need. cbn -[S In incl]; incl_walk.
 Qed.
